@@ -231,19 +231,55 @@ def check_bookkeeping(ctx, db):
     ctx.check(ok, 'R-PAIRCALL', 'remove_overlapping_points/paired-removal', f.loc(), 'a removed spine point takes the same index out of every element; the index advances only when nothing was removed')
 
 
+def width_field_values(db, fn, members):
+    """{scale_width: value} of the integer local that a PATH writer computes with lround / llround from the element's first width
+    entry (the WIDTH record of to_gds, the half-width field of to_oas), evaluated by minieval.value_at with the given member values,
+    scaling 1024 and width_scale 2 (RobustPath); the first width entry is 1280.5 / 1024."""
+    import math
+    from .. import minieval as M
+    cands = [v for v in fn.walk() if v.k == 'VarDecl' and v.child('init') is not None and any(c.k == 'CallExpr' and (c.callee or '').split('::')[-1] in ('lround', 'llround') for c in v.child('init').walk())
+             and any(x.k == 'MemberExpr' and x.n in ('half_width_and_offset', 'width_array') for x in v.child('init').walk())]
+    if len(cands) != 1:
+        raise AnalysisBroken('%s: the rounded width local was not found (%d candidates)' % (fn.qn, len(cands)))
+    wv = cands[0]
+
+    def hook(callee, args, node):
+        short = (callee or '').split('::')[-1]
+        if short in ('lround', 'llround'):
+            v = float(args[0])
+            return (int(math.floor(abs(v) + 0.5)) * (1 if v >= 0 else -1),)
+        if short == 'interp':
+            return (members.get('interp', 1.25048828125),)
+        return None
+    # the first width entry, however the expression reaches it (the key is the member expression's own text)
+    members = dict(members)
+    for x in wv.child('init').walk():
+        tx = ' '.join(x.text().split())
+        if x.k == 'MemberExpr' and x.n in ('u', 'x') and 'half_width_and_offset[' in tx:
+            members[tx] = 1.25048828125      # = 1280.5 / 1024: rounding the half-width first and doubling it gives another integer than rounding the full width
+        elif x.k == 'MemberExpr' and x.n in ('v', 'y') and 'half_width_and_offset[' in tx:
+            members[tx] = 77.0
+        elif x.k == 'MemberExpr' and x.n == 'width_array':
+            members[tx] = M.Obj(items=M.Ptr([M.Obj(), M.Obj()], 0), count=2, capacity=2)      # (interp is answered by the harness)
+    out = {}
+    for sw in (1, 0):
+        mem = dict(members)
+        mem.update({'this->scale_width': sw, 'scale_width': sw, 'state.scaling': 1024.0, 'this->width_scale': 2.0, 'width_scale': 2.0})
+        out[sw] = M.value_at(db, wv.child('init'), members=mem, hook=hook, obj_store=True, env0={'scaling': 1024.0})
+    return out, wv
+
+
 def check_units(ctx, db):
     g = db.fn('gdstk::FlexPath::to_gds')
     o = db.fn('gdstk::FlexPath::to_oas')
     ctx.touch(g)
     ctx.touch(o)
-    wv = next((v for v in g.walk() if v.k == 'VarDecl' and v.child('init') is not None and 'half_width_and_offset[0]' in norm(v.child('init').text())), None)
-    tw = norm(wv.child('init').text()) if wv is not None else ''
-    ok = re.match(r'^\(\(this->scale_width \? 1 : \(-1\)\) \* \(int32_t\)lround\(\(\(2 \* el->half_width_and_offset\[0\]\.u\) \* scaling\)\)\)$', tw) is not None
-    ctx.check(ok, 'R-UNIT', 'FlexPath::to_gds/full-width', wv.loc() if wv is not None else g.loc(), 'GDSII WIDTH = lround(2 x half-width x scaling), negative when the width must not scale', 'GDSII WIDTH computed as `%s`' % tw)
-    hv = next((v for v in o.walk() if v.k == 'VarDecl' and v.n == 'half_width'), None)
-    th = norm(hv.child('init').text()) if hv is not None else ''
-    ok = th == '(uint64_t)llround((el->half_width_and_offset[0].u * state.scaling))'
-    ctx.check(ok, 'R-UNIT', 'FlexPath::to_oas/half-width', hv.loc() if hv is not None else o.loc(), 'OASIS half-width = llround(half-width x scaling)', 'OASIS half-width computed as `%s`' % th)
+    # the value of the WIDTH / half-width field, evaluated (minieval.value_at: the backward slice of the field's local) for a path
+    # whose first half-width is 1280.5 / 1024 with scaling 1024, scaling and not scaling its width - whatever expression spells it
+    for fn_, key, what, want in ((g, 'FlexPath::to_gds/full-width', 'GDSII WIDTH = lround(2 x half-width x scaling), negative when the width must not scale', {1: 2561, 0: -2561}),
+                                 (o, 'FlexPath::to_oas/half-width', 'OASIS half-width = llround(half-width x scaling)', {1: 1281, 0: 1281})):
+        got, wv = width_field_values(db, fn_, {})
+        ctx.check(got == want, 'R-UNIT', key, wv.loc() if wv is not None else fn_.loc(), what, 'for a first half-width of 1280.5 / 1024 and scaling 1024 the field is %s (scale_width true / false), expected %s' % ([got.get(1), got.get(0)], [want[1], want[0]]))
     for f in (g, o):
         ec = [c for c in f.walk() if c.k == 'CXXMemberCallExpr' and (c.callee or '').endswith('::element_center')]
         ro = [c for c in f.walk() if c.k == 'CXXMemberCallExpr' and (c.callee or '').endswith('::remove_overlapping_points')]
